@@ -46,7 +46,7 @@ REASONED = [
      "self.0 is Some from the constructor; switch_to_tls takes it and either restores Some or returns an error that ends run_on (C18.ownership)"),
     (r"^tls::SwitchableConn::<T>::switch_to_tls$", r"^panic$", None, None, "unreachable!() for self.0 == None: see the unwrap reasoning (the value is Some whenever the connection is in use)"),
     (r"^tls::create_stream$", r"^unwrap$", None, None, "ServerConnection::new fails only for an inconsistent ServerConfig supplied by the shim, not for client bytes"),
-    (r"^MysqlIntermediary::<B, RW>::run$", r"^index$", None, None,
+    (r"^MysqlIntermediary::<B, RW>::run$", r"^index$", r"Index<I> for \[T\]>::index :: &\[u8\],std::ops::RangeFrom<usize>$", None,
      "q[b\"SELECT @@\".len()..] / q[b\"USE \".len()..]: dominated by starts_with(prefix) of the same length (C02.prefix-agreement)"),
     (r"^<params::Params<'a> as std::iter::Iterator>::next$", r"^panic$", None, None,
      "unreachable!() for nullmap == None: the first block stores Some(..) whenever it was None (path-checked below by C20.nullmap-some)"),
@@ -187,7 +187,8 @@ def run(ctx):
                     continue
                 reason = None
                 for frx, krx, crx, _ord, why in REASONED:
-                    if re.search(frx, path) and re.search(krx, kind) and (crx is None or re.search(crx, callee)):
+                    callee_s = callee + " :: " + ",".join(t.get("arg_tys") or []) if t["k"] == "call" else callee
+                    if re.search(frx, path) and re.search(krx, kind) and (crx is None or re.search(crx, callee_s)):
                         reason = why
                         break
                 if reason:
